@@ -108,7 +108,7 @@ type renderer struct {
 	incSeq       int
 	dir          string // directory (project-relative, with trailing slash) of the file being rendered
 	baseLevel    int
-	noInclude    int // >0 inside explicit parentheses: INCLUDE runs are only cut from implicitly nested children
+	noInclude    int // >0 directly inside explicit parentheses: INCLUDE runs are only cut from the children of implicitly nested directives
 	// afterText is true when the previous thing was free text (description): no comment/blank may follow directly
 	afterText bool
 	// afterBody is true directly after a schema / enum / regex body
@@ -462,15 +462,19 @@ func (rd *renderer) withChildren(level int, has bool, f func()) {
 		return
 	}
 	paren := rd.st != nil && rd.st.chance(rd.st.Parens)
+	// INCLUDE runs are cut from the children of implicitly nested directives only: the direct children of a directive
+	// with parentheses stay, the children of an implicitly nested directive further in may go
+	saved := rd.noInclude
+	rd.noInclude = 0
 	if paren {
 		rd.open(level)
-		rd.noInclude++
+		rd.noInclude = 1
 	}
 	rd.lastPaste = ""
 	f()
 	rd.lastPaste = ""
+	rd.noInclude = saved
 	if paren {
-		rd.noInclude--
 		rd.close(level)
 	}
 }
